@@ -684,7 +684,7 @@ def printer_transitions(w):
     g = grammar.load()
     here = os.path.dirname(os.path.dirname(os.path.abspath(__file__)))
     h = hashlib.sha256()
-    for fn in ('sites.py', 'kindflow.py', 'grammar.py', 'cfg.py', 'paths.py', 'prov.py', 'mirfacts.py', 'effects.py', 'rules/c13.py', '../tables/typst_syntax_0.13.1.json'):
+    for fn in ('sites.py', 'kindflow.py', 'grammar.py', 'cfg.py', 'paths.py', 'prov.py', 'mirfacts.py', 'effects.py', 'inline.py', 'world.py', 'rules/c13.py', '../tables/typst_syntax_0.13.1.json'):
         h.update(open(os.path.join(here, fn), 'rb').read())
     cache = os.path.join(w.facts_dir, 'modes-%s.pickle' % h.hexdigest()[:16])
     if os.path.exists(cache):
